@@ -204,6 +204,14 @@ func Upgrade8To10(old, new string, logger *log.Logger) (retErr error) {
 		if err != nil {
 			return fmt.Errorf("reading upgrade plan: %w", err)
 		}
+		// Operations that come before an already-applied rename must not be
+		// replayed: they would rebuild the temporary directory from an 'old'
+		// directory that may be partly removed, and then fail to rename it
+		// onto the destination that is already in place.
+		p, err = pendingUpgradeOps(p)
+		if err != nil {
+			return fmt.Errorf("inspecting resumed upgrade plan: %w", err)
+		}
 		if err := p.Execute(plan.NewExecutor()); err != nil {
 			return fmt.Errorf("executing resumed upgrade plan: %w", err)
 		}
@@ -288,6 +296,32 @@ func Upgrade8To10(old, new string, logger *log.Logger) (retErr error) {
 	stats.Add(upgradeOk, 1)
 
 	return nil
+}
+
+// pendingUpgradeOps returns the operations of an interrupted upgrade plan that
+// still have to be executed. Operations run in order and a rename is atomic, so
+// if the plan's rename has taken effect (source gone, destination present) every
+// operation up to and including it completed on an earlier attempt, and only
+// the operations after it remain. If no rename has taken effect the whole plan
+// is returned; its operations are idempotent up to that point.
+func pendingUpgradeOps(p *plan.Plan) (*plan.Plan, error) {
+	checker := plan.NewChecker()
+	for i := len(p.Ops) - 1; i >= 0; i-- {
+		op := p.Ops[i]
+		if op.Type != plan.OpRename {
+			continue
+		}
+		done, err := checker.RenameDone(op.Src, op.Dst)
+		if err != nil {
+			return nil, err
+		}
+		if done {
+			rest := plan.New()
+			rest.Ops = append(rest.Ops, p.Ops[i+1:]...)
+			return rest, nil
+		}
+	}
+	return p, nil
 }
 
 // getNewest8Snapshot returns the ID and Raft meta of the newest v8-format snapshot
